@@ -83,9 +83,12 @@ def resolve_window(g, w):
 
 def interval_dict(g, pieces, form="list"):
     """pieces: list of ((spec_s, spec_e), value)"""
-    return dict(start=[g.instant_iso(s) for (s, e), v in pieces],
-                end=[g.instant_iso(e) for (s, e), v in pieces],
-                values=[v for _, v in pieces], form=form)
+    st = [g.instant_iso(s) for (s, e), v in pieces]
+    en = [g.instant_iso(e) for (s, e), v in pieces]
+    if any(len(x) > 16 for x in st + en):  # one instant needs an explicit offset -> all get one
+        st = [g.instant(s).astimezone(__import__("zoneinfo").ZoneInfo(g.tz)).isoformat(timespec="minutes") for (s, e), v in pieces]
+        en = [g.instant(e).astimezone(__import__("zoneinfo").ZoneInfo(g.tz)).isoformat(timespec="minutes") for (s, e), v in pieces]
+    return dict(start=st, end=en, values=[v for _, v in pieces], form=form)
 
 
 # ----------------------------------------------------------------------------- assets
